@@ -35,7 +35,7 @@ def q(x):
 def obs_to_float(o):
     """same structure, rationals -> floats (a change of representation only)"""
     out = dict(o)
-    for k in ("zb", "zt", "h", "zmid", "mesh"):
+    for k in ("zb", "zt", "h", "zmid", "mesh", "locz"):
         out[k] = [q(x) for x in o[k]]
     for k in ("total", "hsum", "fluid"):
         out[k] = q(o[k])
@@ -55,16 +55,17 @@ class Adapter:
         from armi.reactor.converters.axialExpansionChanger import AxialExpansionChanger
 
         a = gen.build_assembly(A, self.CT, self.BT)
-        w = {"A": A, "a": a, "chg": AxialExpansionChanger(detailedAxialExpansion=True), "err": "", "broken": False, "init": {}}
+        w = {"A": A, "a": a, "chg": AxialExpansionChanger(detailedAxialExpansion=bool(A["det"])), "err": "", "broken": False, "init": {}}
         for b in a:
             for c in b:
                 w["init"][id(c)] = (dict(c.getNumberDensities()), c.getArea(), c.getMass())
         return w
 
     def modelled(self, w):
-        """components of the model, block by block (the coolant / intercoolant every block carries are outside it)"""
+        """components of the model, block by block incl. the top block (the coolant / intercoolant every block carries and
+        the coolant of a dummy top are outside it)"""
         a, A = w["a"], w["A"]
-        return [[b.getComponentByName(n) for n in A["names"][ib]] for ib, b in enumerate(a[:-1])]
+        return [[b.getComponentByName(n) for n in A["names"][ib]] for ib, b in enumerate(a)]
 
     def solids(self, w):
         from armi.reactor.converters.axialExpansionChanger.expansionData import iterSolidComponents
@@ -78,7 +79,7 @@ class Adapter:
         try:
             if n in ("Prescribed", "PrescribedBad"):
                 comps, fr = [], []
-                mod = self.modelled(w)
+                mod = self.modelled(w)[:-1]  # factors are given for the blocks below the top block
                 if n == "Prescribed":
                     for ib, blk in enumerate(mod):
                         for ic, c in enumerate(blk):
@@ -174,6 +175,7 @@ class Adapter:
             "broken": w["broken"],
             "err": w["err"],
             "loc": [int(b.spatialLocator.k) for b in a],
+            "locz": [float(b.spatialLocator.getLocalCoordinates()[2]) for b in a] if w.get("expanded") else [],
             "total": float(a[-1].p.ztop),
             "hsum": float(a.getTotalHeight()),
             "fluid": bad[0] if bad else max(fl, key=lambda x: abs(x - 1.0)),
@@ -241,7 +243,7 @@ def action_census(cases):
     return c
 
 
-NEEDED = ("Prescribed:sparse/ok", "Prescribed:uniform/ok", "Prescribed:uniform/ArithmeticError", "Thermal/ok", "Thermal/ValueError",
+NEEDED = ("Prescribed:sparse/RuntimeError", "Prescribed:sparse/ok", "Prescribed:uniform/ok", "Prescribed:uniform/ArithmeticError", "Thermal/ok", "Thermal/ValueError",
           "PrescribedBad:zero/RuntimeError", "PrescribedBad:length/RuntimeError", "ThermalBadLen/RuntimeError")
 
 
@@ -317,7 +319,7 @@ def run(rep, tier, seed):
             rep.violation(k, "real assembly diverges from AxialExpansion after %s: %s" % (json.dumps(d["action"])[:300], d["first_difference"]),
                           dict(d, direction="replay"))
         mid = cases[len(cases) // 2]
-        rep.sample({"kind": fam, "design": {k: mid["A"][k] for k in ("types", "hs", "hd", "expl")}, "calls": mid["path"],
+        rep.sample({"kind": fam, "design": {k: mid["A"][k] for k in ("types", "hs", "top", "hd", "det", "expl")}, "calls": mid["path"],
                     "expected": {k: mid["obs"][k] for k in ("zt", "h", "err", "tname")}})
 
         # 3b. the refuted literal clauses: shortest refuting behaviour, measured on the real code
@@ -357,7 +359,8 @@ def run(rep, tier, seed):
 
     rep.assume(
         "assemblies: pin-type HexBlocks from the specification's catalogue (Circle pins/clad/liner, Hexagon duct, fluid bond/coolant) "
-        "below a fluid-only top block flagged DUMMY; AxialExpansionChanger(detailedAxialExpansion=True)",
+        "below a fluid-only top block flagged DUMMY or below an ordinary (non-DUMMY) top block; changer built with detailedAxialExpansion "
+        "True and False (a design dimension)",
         "explicit (blueprint) target components are always solid components of their block",
         "a call that drives a block height negative raises ArithmeticError in the middle of the loop and leaves the assembly "
         "half-updated (modelled as such, terminal); ValueError from the temperature mapping leaves the lower blocks at their new temperature",
@@ -425,10 +428,13 @@ def measure_clause(ad, case, clause):
 # code -> spec
 # ------------------------------------------------------------------------------------------------------------
 TRACE_DESIGNS = [
-    {"types": ["shield", "fuel", "plenum"], "hs": [4, 8, 4], "hd": 32},
-    {"types": ["fuel", "fuel", "plenumd"], "hs": [8, 4, 2], "hd": 16},
-    {"types": ["shieldd", "fueld", "fueld", "plenumd"], "hs": [2, 4, 4, 2], "hd": 24},
-    {"types": ["fuelb", "bigfuel", "plenum"], "hs": [4, 4, 4], "hd": 12},
+    {"types": ["shield", "fuel", "plenum"], "hs": [4, 8, 4], "hd": 32, "top": "", "det": True},
+    {"types": ["fuel", "fuel", "plenumd"], "hs": [8, 4, 2], "hd": 16, "top": "", "det": False},
+    {"types": ["shieldd", "fueld", "fueld", "plenumd"], "hs": [2, 4, 4, 2], "hd": 24, "top": "", "det": True},
+    {"types": ["fuelb", "bigfuel", "plenum"], "hs": [4, 4, 4], "hd": 12, "top": "", "det": False},
+    {"types": ["shield", "fuel", "fuel"], "hs": [4, 8, 4], "hd": 16, "top": "plenum", "det": False},  # no dummy: the plenum is chopped
+    {"types": ["fuel", "fuel"], "hs": [4, 4], "hd": 8, "top": "fuel", "det": False},
+    {"types": ["fuel"], "hs": [4], "hd": 8, "top": "plenum", "det": True},  # no dummy + detailed: refused
 ]
 
 
@@ -442,38 +448,39 @@ def trace_driver(ad, ntraces, nev, seed):
     traces = []
     for t in range(ntraces):
         d = dict(rng.choice(TRACE_DESIGNS))
-        names = [ad.BT[x]["comps"] for x in d["types"]]
+        names = [ad.BT[x]["comps"] for x in d["types"]] + [ad.BT[d["top"]]["comps"] if d["top"] else []]
         expl = []
-        for ns in names:
+        for ns in names[:-1]:
             sol = [n for n in ns if ad.CT[n]["solid"]]
             expl.append(rng.choice([""] * 2 + sol))
-        A = dict(d, expl=expl + [""], names=names + [[]], solid=[[ad.CT[n]["solid"] for n in ns] for ns in names] + [[]], ng=0)
+        expl.append("")
+        A = dict(d, expl=expl, names=names, solid=[[ad.CT[n]["solid"] for n in ns] for ns in names], ng=0)
         w = ad.build(A)
         ev = []
         for _ in range(nev):
-            g = [[[1, 1] if not s or rng.random() < 0.5 else rng.choice([[1, 2], [2, 1], [1, 1]]) for s in row] for row in A["solid"][:-1]]
+            g = [[[1, 1] if not s_ or rng.random() < 0.5 else rng.choice([[1, 2], [2, 1], [1, 1]]) for s_ in row] for row in A["solid"][:-1]]
             if rng.random() < 0.25:  # per-block uniform change
                 g = []
                 for row in A["solid"][:-1]:
                     u = rng.choice([[1, 2], [2, 1], [1, 1]])
-                    g.append([u if s else [1, 1] for s in row])
+                    g.append([u if s_ else [1, 1] for s_ in row])
             act = {"n": "Prescribed", "g": g, "setFuel": rng.random() < 0.7, "kind": "sparse" if rng.random() < 0.5 else "all"}
             try:
                 ad.apply(w, act)
                 p = ad.project(w)
                 post = {"err": p["err"], "zb": [frac(x) for x in p["zb"]], "zt": [frac(x) for x in p["zt"]], "h": [frac(x) for x in p["h"]],
-                        "mesh": [frac(x) for x in p["mesh"]], "tname": p["tname"],
+                        "mesh": [frac(x) for x in p["mesh"]], "locz": [frac(x) for x in p["locz"]], "tname": p["tname"],
                         "comp": [[{"h": frac(c["h"]), "zb": frac(c["zb"]), "zt": frac(c["zt"]),
                                    "lin": frac(c["lin"]) if isinstance(c["lin"], float) else c["lin"],
-                                   "mass": frac(c["mass"])} for c in blk] for blk in p["comp"]] + [[]]}
+                                   "mass": frac(c["mass"])} for c in blk] for blk in p["comp"]]}
                 ev.append({"a": act, "post": post})
             except Exception as ex:  # noqa: BLE001
                 ev.append({"a": act, "post": {"exception": "%s: %s" % (type(ex).__name__, str(ex)[:200])}})
                 break
             if w["broken"]:
                 break
-        traces.append({"id": "t%d" % t, "design": {"types": d["types"], "hs": d["hs"], "hd": d["hd"]},
-                       "ex": [0 if not e else names[i].index(e) + 1 for i, e in enumerate(expl)] + [0], "ev": ev})
+        traces.append({"id": "t%d" % t, "design": d,
+                       "ex": [0 if not e else names[i].index(e) + 1 for i, e in enumerate(expl)], "ev": ev})
     return traces
 
 
@@ -563,6 +570,14 @@ def selftest():
         ("block height set to the target component's height", M(C, "axiallyExpandAssembly", "b.p.ztop = c.ztop\n                    b.p.height = b.p.ztop - b.p.zbottom", "b.p.ztop = c.ztop\n                    b.p.height = c.height")),
         ("reference temperature recorded after the new temperature is set",
          M(D, "updateComponentTemp", "self.componentReferenceTemperature[c] = c.temperatureInC\n    c.setTemperature(temp)", "c.setTemperature(temp)\n    self.componentReferenceTemperature[c] = c.temperatureInC")),
+        ("seed 1: the absorbing block is found by the DUMMY flag, not by position",
+         M(C, "axiallyExpandAssembly", "isDummyBlock = ib == (numOfBlocks - 1)", "isDummyBlock = b.hasFlags(Flags.DUMMY)")),
+        ("seed 3: grid bounds only rewritten by a detailed changer",
+         M(C, "axiallyExpandAssembly", "self.linked.a.spatialGrid._bounds = tuple(bounds)",
+           "self.linked.a.spatialGrid._bounds = tuple(bounds) if self._detailedAxialExpansion else self.linked.a.spatialGrid._bounds")),
+        ("block locators not re-attached to the assembly grid", M(C, "axiallyExpandAssembly", "b.spatialLocator = self.linked.a.spatialGrid[0, 0, ib]", "pass")),
+        ("missing dummy accepted by a detailed changer", M(C, "_isTopDummyBlockPresent", "if self._detailedAxialExpansion:", "if False:")),
+        ("missing dummy refused by the default changer too", M(C, "_isTopDummyBlockPresent", "if self._detailedAxialExpansion:", "if True:")),
         ("negative block height accepted", M(X, "_checkBlockHeight", "if b.getHeight() < 0.0:", "if b.getHeight() < -1.0e9:")),
         ("link direction reversed (upper stored as lower)", M(K, "_getLinkedComponents", "AxialLink(lowerC, upperC)", "AxialLink(upperC, lowerC)")),
         ("touching cross-sections count as linked (< becomes <=)", M(L, "areAxiallyLinked", "return biggerID < smallerOD", "return biggerID <= smallerOD")),
